@@ -29,6 +29,9 @@ the footprint `Dyn`; the process-wide FFT cache and VR coefficient tables as `Gl
 * VR: `vr_first_instance_wins`, `vr_not_independent` — the static tables take the FIRST VR instance's `mult`; a later
   instance with another scale gets the first one's gain: independence is FALSE for the VR engine (finding F6, replayed on the
   real code by `checks/c10.py`); `vr_independent_same_mult` is what remains true.
+* `clear_forgets_ratio_without_channels`: HISTORICAL witness about `clearOld`, the expression before commit 76fe472 (F18:
+  clear of an object without channels forgot io_ratio); `clear` follows the repaired code and `clear_eq_fresh` needs no
+  excluding hypothesis.  `checks/c10.py` replays the witness history on every run: the forgetting coming back is a violation.
 -/
 namespace Soxr.C10
 open Soxr.Chan.Clear
@@ -47,26 +50,21 @@ theorem copyFn_eq_setInputFn (q p : Soxr σ) (f s m : Nat) :
     copyFn q (setInputFn p f s m) = setInputFn q f s m := rfl
 
 /-- MAIN: whatever state the object is in, `soxr_clear` leaves the struct a successful `soxr_create` of the same
-    configuration (seed 0) would build, field by field, plus the registered input function. -/
-theorem clear_eq_fresh (W : Eng σ) (p q : Soxr σ) (h : (create W (clearConfig p) 0).1 = some q)
-    (hch : p.num_channels ≠ 0 ∨ p.io_ratio = 0 ∨ hasReset p.q_spec = false) :
-    (clear W p).1 = copyFn q p := by
+    configuration (seed 0) would build, field by field, plus the registered input function, and returns 0 — no excluding
+    hypothesis (since the F18 repair, commit 76fe472, also for objects whose channel count is not set yet). -/
+theorem clear_eq_fresh (W : Eng σ) (p q : Soxr σ) (h : (create W (clearConfig p) 0).1 = some q) :
+    clear W p = (copyFn q p, 0) := by
   unfold create at h
-  unfold clear clearConfig configOf copyFn at *
+  unfold clear clearBase clearConfig configOf copyFn at *
   by_cases hr : hasReset p.q_spec = true
   · simp only [hr, if_true] at h ⊢
     by_cases hc : p.num_channels = 0
-    · have hz : p.io_ratio = 0 := by
-        rcases hch with h1 | h1 | h1
-        · exact absurd hc h1
-        · exact h1
-        · rw [hr] at h1; cases h1
-      simp [hc, hz, setIoRatio] at h ⊢
-      subst h; simp [hc, hz]
+    · simp [hc] at h ⊢
+      subst h; simp
     · by_cases hz : p.io_ratio = 0
-      · simp [hz, setIoRatio, hc] at h ⊢
+      · simp [hz] at h ⊢
         subst h; first | rfl | simp [hz]
-      · simp only [hc, hz, ne_eq, not_false_eq_true, and_self, if_true] at h
+      · simp only [hc, hz, ne_eq, not_false_eq_true, and_self, if_true] at h ⊢
         simp only [setIoRatio, initialise, hc, hz, ne_eq, not_true_eq_false, if_false] at h ⊢
         cases hcr : W.create p.control_block p.io_ratio p.q_spec p.runtime_spec p.io_spec.scale with
         | error e =>
@@ -79,13 +77,15 @@ theorem clear_eq_fresh (W : Eng σ) (p q : Soxr σ) (h : (create W (clearConfig 
     simp at h
     subst h; first | rfl | simp
 
-/-- the excluded corner is really different (finding F18): an object whose channel count is not set yet
-    (`soxr_create(…, 0, …)`, channels to be supplied by `soxr_set_num_channels`) FORGETS its ratio in `soxr_clear`:
-    `soxr_set_io_ratio` refuses ("must set # channels before O/I ratio") before storing it -/
+/-- HISTORICAL witness (finding F18, repaired in /repo by 76fe472): with the expression as first pinned (`clearOld`) an
+    object whose channel count is not set yet (`soxr_create(…, 0, …)`, channels to be supplied by `soxr_set_num_channels`)
+    FORGOT its ratio in `soxr_clear`: `soxr_set_io_ratio` refuses ("must set # channels before O/I ratio") before storing it.
+    The current `clear` does not (`clear_eq_fresh` has no excluding hypothesis). -/
 theorem clear_forgets_ratio_without_channels :
-    ∃ (p q : Soxr Unit), (create dEng (clearConfig p) 0).1 = some q ∧ (clear dEng p).1 ≠ copyFn q p ∧
-      (clear dEng p).1.io_ratio = 0 ∧ q.io_ratio = 7 ∧ (clear dEng p).2 = errNoChannels := by
-  refine ⟨{ (zero : Soxr Unit) with io_ratio := 7, q_spec := ⟨resetBit, 1⟩, control_block := 4 }, _, rfl, ?_, rfl, rfl, rfl⟩
+    ∃ (p q : Soxr Unit), (create dEng (clearConfig p) 0).1 = some q ∧ (clearOld dEng p).1 ≠ copyFn q p ∧
+      (clearOld dEng p).1.io_ratio = 0 ∧ q.io_ratio = 7 ∧ (clearOld dEng p).2 = errNoChannels ∧
+      clear dEng p = (copyFn q p, 0) := by
+  refine ⟨{ (zero : Soxr Unit) with io_ratio := 7, q_spec := ⟨resetBit, 1⟩, control_block := 4 }, _, rfl, ?_, rfl, rfl, rfl, rfl⟩
   intro h
   have := congrArg Soxr.io_ratio h
   revert this
@@ -95,14 +95,14 @@ theorem clear_forgets_ratio_without_channels :
 theorem clear_fails_like_create (W : Eng σ) (p : Soxr σ) (e : Nat) (h : create W (clearConfig p) 0 = (none, e)) :
     (clear W p).2 = e ∧ (clear W p).1 = fatal p e := by
   unfold create at h
-  unfold clear clearConfig configOf at *
+  unfold clear clearBase clearConfig configOf at *
   by_cases hr : hasReset p.q_spec = true
   · simp only [hr, if_true] at h ⊢
     by_cases hc : p.num_channels = 0
     · simp [hc] at h
     · by_cases hz : p.io_ratio = 0
       · simp [hz] at h
-      · simp only [hc, hz, ne_eq, not_false_eq_true, and_self, if_true] at h
+      · simp only [hc, hz, ne_eq, not_false_eq_true, and_self, if_true] at h ⊢
         simp only [setIoRatio, initialise, hc, hz, ne_eq, not_true_eq_false, if_false] at h ⊢
         cases hcr : W.create p.control_block p.io_ratio p.q_spec p.runtime_spec p.io_spec.scale with
         | error e' =>
@@ -116,15 +116,15 @@ theorem clear_fails_like_create (W : Eng σ) (p : Soxr σ) (e : Nat) (h : create
 theorem clear_resets (W : Eng σ) (p : Soxr σ) :
     (clear W p).1.clips = 0 ∧ (clear W p).1.flushing = 0 ∧ (clear W p).1.seed = 0 ∧
     ((clear W p).2 = 0 → (clear W p).1.error = 0) := by
-  unfold clear
+  unfold clear clearBase
   by_cases hr : hasReset p.q_spec = true
   · simp only [hr, if_true]
-    unfold setIoRatio initialise
     by_cases hc : p.num_channels = 0
-    · simp [hc, errNoChannels]
+    · simp [hc]
     · by_cases hz : p.io_ratio = 0
-      · simp [hc, hz, errRange]
-      · cases hcr : W.create p.control_block p.io_ratio p.q_spec p.runtime_spec p.io_spec.scale with
+      · simp [hc, hz]
+      · unfold setIoRatio initialise
+        cases hcr : W.create p.control_block p.io_ratio p.q_spec p.runtime_spec p.io_spec.scale with
         | error e => simp [hc, hz, hcr, fatal, delete0, zero]
         | ok e0 => simp [hc, hz, hcr]
   · have hr' : hasReset p.q_spec = false := by simpa using hr
@@ -134,7 +134,7 @@ theorem clear_resets (W : Eng σ) (p : Soxr σ) :
 theorem clear_engines_fresh (W : Eng σ) (p : Soxr σ) (e0 : σ) (hr : hasReset p.q_spec = true) (hc : p.num_channels ≠ 0)
     (hz : p.io_ratio ≠ 0) (hcr : W.create p.control_block p.io_ratio p.q_spec p.runtime_spec p.io_spec.scale = .ok e0) :
     (clear W p).1.resamplers = some (List.replicate p.num_channels e0) ∧ (clear W p).1.io_ratio = p.io_ratio := by
-  unfold clear
+  unfold clear clearBase
   simp [hr, setIoRatio, initialise, hc, hz, hcr]
 
 /-! ### along every history -/
@@ -148,6 +148,18 @@ theorem setIoRatio_fixed (W : Eng σ) (p : Soxr σ) (r l : Nat) :
   unfold setIoRatio initialise
   repeat' split
   all_goals (intro hl; first | exact ⟨rfl, hl⟩ | (simp [Live, fatal, delete0, zero] at hl))
+
+theorem clear_fixed (W : Eng σ) (p : Soxr σ) :
+    Live (clear W p).1 → (fixedPart (clear W p).1 = fixedPart p ∧ Live p) := by
+  unfold clear
+  simp only
+  split
+  · split
+    · intro hl
+      have := setIoRatio_fixed W _ p.io_ratio 0 hl
+      exact ⟨this.1, this.2⟩
+    · intro hl; exact ⟨rfl, hl⟩
+  · intro hl; exact ⟨rfl, hl⟩
 
 theorem applyOp_fixed (W : Eng σ) (p : Soxr σ) (o : HOp) (hl : Live (applyOp W p o)) :
     fixedPart (applyOp W p o) = fixedPart p ∧ Live p := by
@@ -166,18 +178,8 @@ theorem applyOp_fixed (W : Eng σ) (p : Soxr σ) (o : HOp) (hl : Live (applyOp W
           simp only [h1, h2, h3, if_false] at hl
           have := setIoRatio_fixed W { p with num_channels := n } p.io_ratio 0 hl
           exact ⟨this.1, this.2⟩
-  | clear =>
-    simp only [applyOp, clear] at hl ⊢
-    split
-    · rename_i hr
-      simp only [hr, if_true] at hl
-      have := setIoRatio_fixed W _ p.io_ratio 0 hl
-      exact ⟨this.1, this.2⟩
-    · rename_i hr
-      simp only [hr, if_false] at hl
-      exact ⟨rfl, hl⟩
+  | clear => exact clear_fixed W p hl
 
-/-- for every history of an object that is still live: the configuration written by `soxr_create` is untouched -/
 theorem dyn_fixed {q q' : Soxr σ} (hd : Dyn q q') (hl : Live q') : fixedPart q' = fixedPart q ∧ Live q := by
   have hcfg := hd.cfg
   have h1 := congrArg Config.q_spec hcfg
@@ -210,10 +212,9 @@ theorem history_keeps_config (W : Eng σ) {p0 p : Soxr σ} (h : Reach W p0 p) :
     the channel count and ratio the object has now), seed 0, plus the input function registered now -/
 theorem clear_after_history (W : Eng σ) (c : Config) (seed : Nat) {p0 p q : Soxr σ}
     (hc : (create W c seed).1 = some p0) (hr : Reach W p0 p) (hl : Live p)
-    (hq : (create W (clearConfig p) 0).1 = some q)
-    (hch : p.num_channels ≠ 0 ∨ p.io_ratio = 0 ∨ hasReset p.q_spec = false) :
-    (clear W p).1 = copyFn q p ∧ fixedPart p = fixedPart p0 :=
-  ⟨clear_eq_fresh W p q hq hch, (history_keeps_config W hr hl).1⟩
+    (hq : (create W (clearConfig p) 0).1 = some q) :
+    clear W p = (copyFn q p, 0) ∧ fixedPart p = fixedPart p0 :=
+  ⟨clear_eq_fresh W p q hq, (history_keeps_config W hr hl).1⟩
 
 /-! ### several objects -/
 
@@ -276,7 +277,7 @@ example :
     let c : Config := ⟨2, 7, ⟨resetBit, 1⟩, ⟨0, 1, 0⟩, 1, 4, 1, 1⟩
     ∃ p0 q, (create W c 99).1 = some p0 ∧
       (create W (clearConfig { (setInputFn p0 7 9 0) with error := 3, clips := 17, flushing := 1 }) 0).1 = some q ∧
-      (clear W { (setInputFn p0 7 9 0) with error := 3, clips := 17, flushing := 1 }).1 = setInputFn q 7 9 0 :=
+      clear W { (setInputFn p0 7 9 0) with error := 3, clips := 17, flushing := 1 } = (setInputFn q 7 9 0, 0) :=
   ⟨_, _, rfl, rfl, rfl⟩
 
 example : Reach dEng (zero : Soxr Unit) (applyOp dEng (zero : Soxr Unit) (.setInputFn 1 2 3)) := .op _ (.refl _)
